@@ -24,7 +24,9 @@ import gen as G
 THEOREMS = ['scalar_broadcasts', 'none_propagates', 'length_mismatch_errors', 'spec_result_has_deepest_structure',
             # model = specification (refinement) on the fragment jag, two array inputs (Proofs_C04_Model1..6.v)
             'model_refines_spec', 'model_refines_spec_strong', 'model_never_out_of_fuel',
-            'broadcast_refines_spec_partial', 'size1_vs_size0_differs']
+            'broadcast_refines_spec_partial', 'size1_vs_size0_differs',
+            # widened (Proofs_C04_Scal*.v, _Opt*.v, _Probes.v): one array + scalars; all option encodings at the top node
+            'scalars_refine_spec', 'scalars_refine_spec_strong', 'broadcast_scalars_refines_spec_partial', 'broadcast_scalars_never_out_of_fuel', 'option_encodings_refine_spec_partial', 'option_encodings_refine_spec_strong_partial', 'option_encodings_scalars_refine_spec_partial', 'regular_level_no_left_broadcast_refuted', 'regular_inner_size1_vs_size0_refuted']
 DRIVERS = ('pydrv',)
 COQ_DIR = '/verif/c04/coq'
 COQ_LOGICAL = '-R /verif/coq AwkV -R . AwkBroadcast'
